@@ -56,7 +56,7 @@ Definition vstart (s : str) : Prop :=
             /\ is_next OPEN_DICT (mkcur d s) = false /\ is_next [[125%N]] (mkcur d s) = false
             /\ is_next [[44%N]] (mkcur d s) = false /\ is_next [[58%N]] (mkcur d s) = false.
 
-Definition LEADX : list N := (46 :: WSCH ++ [124; 58; 44; 93; 125; 91; 123; 61; 42; 40; 41; 47])%N.
+Definition LEADX : list N := (46 :: WSCH ++ [124; 58; 44; 93; 125; 91; 123; 61; 42; 40; 41])%N.
 
 Lemma vstart_lead x s : existsb (N.eqb x) (WSCH ++ [124; 58; 44; 93; 125; 91; 123; 42; 46]%N) = false -> vstart (x :: s).
 Proof.
@@ -517,7 +517,7 @@ Lemma list_items_run key below tot : forall items lay F d w r,
   f_ty F = TList ->
   Forall (fun p => is_leaf (snd p) = false -> Pv (snd p)) items ->
   forallb litem_ok items = true ->
-  Forall (fun p => S (length (F :: below)) + vdepth (snd p) <= 101) items ->
+  Forall (fun p => length (F :: below) + vdepth (snd p) <= 101) items ->
   forallb is_ws w = true ->
   reaches key (mkcur d (w ++ print_litems lay items ++ 93%N :: r)) (F :: below) tot
           (mkcur (rev (w ++ print_litems lay items) ++ d) (93%N :: r))
@@ -600,7 +600,7 @@ Proof.
     eapply reaches_trans; [exact Hitem|].
     cbn [map]. rewrite <- add_ents_push.
     assert (HF' : f_ty (push_entry F (litem_ast (sp, x))) = TList) by exact HF.
-    assert (Hdep' : Forall (fun p => S (length (push_entry F (litem_ast (sp, x)) :: below)) + vdepth (snd p) <= 101) rest)
+    assert (Hdep' : Forall (fun p => length (push_entry F (litem_ast (sp, x)) :: below) + vdepth (snd p) <= 101) rest)
       by exact Hdr.
     subst after. unfold sep_text.
     destruct last eqn:El.
@@ -617,4 +617,556 @@ Proof.
       eapply reaches_trans.
       { apply (IH (sub lay 5) (push_entry F (litem_ast (sp, x))) _ (w0 lay 4) r HF' HPr Hok Hdep' (w0_ws _ _)). }
       done_reach.
+Qed.
+
+(* --- dicts --- *)
+Definition dent_ast (p : option leaf * sval) : list node :=
+  match fst p with
+  | Some kl => [NVal (parts_of_leaf None kl); ast_val None (snd p)]
+  | None => [ast_val (Some SpStar2) (snd p)]
+  end.
+Definition dent_ok (p : option leaf * sval) : bool :=
+  val_ok (snd p) &&
+  match fst p with
+  | Some kl => leaf_ok kl && no_args kl
+  | None => match snd p with SLeaf l => spreadable l && no_args l | SDict _ => true | SList _ => false end
+  end.
+
+Definition fr (F : frame) (ns : list node) (m : option bool) : frame :=
+  mkframe (f_ty F) (f_sp F) (f_ents F ++ ns) m.
+
+Ltac frame_eq :=
+  repeat match goal with F : frame |- _ => destruct F end;
+  unfold fr, push_entry, set_meta, set_sp, add_ents; cbn [f_ty f_sp f_ents f_meta] in *; subst;
+  rewrite <- ?app_assoc; cbn [app]; rewrite ?app_nil_r; reflexivity.
+
+Lemma reaches_refl2 key c c' st st' tot : c = c' -> st = st' -> reaches key c st tot c' st' tot.
+Proof. intros -> ->. apply reaches_refl. Qed.
+Ltac done_reach2 := subst_lets; apply reaches_refl2; [f_equal; norm_rev; reflexivity | f_equal; frame_eq].
+
+Lemma print_dents_cons lay k x r :
+  print_dents lay ((k, x) :: r)
+  = match k with
+    | Some kl => print_leaf (sub lay 6) kl ++ w0 lay 7 ++ 58%N :: w0 lay 8
+    | None => 42%N :: 42%N :: (if is_leaf x then w0 lay 0 else [])
+    end
+    ++ print_val (sub lay 1) x ++ w0 lay 2
+    ++ sep_text lay (match r with [] => true | _ => false end) ++ print_dents (sub lay 5) r.
+Proof.
+  cbn [print_dents]. unfold sep_text. destruct r as [|p r].
+  - cbn [print_dents]. rewrite app_nil_r. reflexivity.
+  - rewrite <- app_comm_cons. reflexivity.
+Qed.
+
+Lemma ast_not_spread x : entry_is_spread (ast_val None x) = false.
+Proof. destruct x as [l| |]; try reflexivity. cbn. rewrite p_spread_atom. reflexivity. Qed.
+Lemma ast_is_spread x sp : entry_is_spread (ast_val (Some sp) x) = true.
+Proof. destruct x as [l| |]; try reflexivity. cbn. rewrite p_spread_atom. reflexivity. Qed.
+
+Lemma validate_dents : forall ents, validate_dict (flat_map dent_ast ents) false = true.
+Proof.
+  induction ents as [|[k x] ents IH]; [reflexivity|].
+  cbn [flat_map]. unfold dent_ast at 1. cbn [fst snd]. destruct k as [kl|].
+  - cbn [app validate_dict entry_is_spread parts_of_leaf]. rewrite p_spread_atom. cbn [is_some entry_is_struct andb negb].
+    rewrite ast_not_spread. rewrite andb_false_r. exact IH.
+  - cbn [app validate_dict]. rewrite ast_is_spread. exact IH.
+Qed.
+
+Lemma dict_items_run key below tot : forall ents lay F d w r,
+  f_ty F = TDict -> f_meta F = Some true ->
+  Forall (fun p => is_leaf (snd p) = false -> Pv (snd p)) ents ->
+  forallb dent_ok ents = true ->
+  Forall (fun p => length (F :: below) + vdepth (snd p) <= 101) ents ->
+  forallb is_ws w = true ->
+  exists m,
+  reaches key (mkcur d (w ++ print_dents lay ents ++ 125%N :: r)) (F :: below) tot
+          (mkcur (rev (w ++ print_dents lay ents) ++ d) (125%N :: r))
+          (fr F (flat_map dent_ast ents) (Some m) :: below) tot.
+Proof.
+  induction ents as [|[k x] rest IH]; intros lay F d w r HF HM HP Hok Hdep Hw.
+  - exists true. cbn [print_dents flat_map app]. rewrite app_nil_r.
+    eapply reaches_trans; [apply reaches_skip; [exact Hw | reflexivity]|]. done_reach2.
+  - inversion HP as [|? ? HPx HPr]; subst. inversion Hdep as [|? ? Hdx Hdr]; subst.
+    cbn [forallb] in Hok. apply andb_true_iff in Hok as [Hx Hok]. unfold dent_ok in Hx. cbn [fst snd] in *.
+    apply andb_true_iff in Hx as [Hvx Hshape].
+    rewrite print_dents_cons.
+    set (last := match rest with [] => true | _ => false end).
+    set (after := sep_text lay last ++ print_dents (sub lay 5) rest ++ 125%N :: r).
+    assert (Hafter : exists y s, after = y :: s /\ (y = 44%N \/ y = 125%N)).
+    { subst after. unfold sep_text. destruct last eqn:El.
+      - destruct rest; [|discriminate]. cbn [print_dents app]. destruct (opt lay 3); eexists _, _; (split; [reflexivity | auto]).
+      - eexists _, _. split; [reflexivity | auto]. }
+    destruct Hafter as (ya & sa & Ea & Hya).
+    assert (Hend : end_ok CDictVal (w0 lay 2) after = true).
+    { rewrite Ea. cbn [end_ok ctx_tcs existsb]. destruct Hya as [->| ->]; reflexivity. }
+    assert (Hnowsa : nows after = true) by (rewrite Ea; destruct Hya as [->| ->]; reflexivity).
+    assert (Hya' : match after with y :: _ => N.eqb y 44 || N.eqb y 125 | [] => false end = true).
+    { rewrite Ea. destruct Hya as [->| ->]; reflexivity. }
+    set (ktxt := match k with
+                 | Some kl => print_leaf (sub lay 6) kl ++ w0 lay 7 ++ 58%N :: w0 lay 8
+                 | None => 42%N :: 42%N :: (if is_leaf x then w0 lay 0 else [])
+                 end).
+    set (itxt := ktxt ++ print_val (sub lay 1) x ++ w0 lay 2).
+    (* 1. the entry, up to `after`; the frame afterwards *)
+    assert (Hitem : exists m1,
+               reaches key (mkcur d (w ++ itxt ++ after)) (F :: below) tot
+                       (mkcur (rev (w ++ itxt) ++ d) after)
+                       (fr F (dent_ast (k, x)) (Some m1) :: below) tot
+               /\ (last = true -> opt lay 3 = false -> True)).
+    { subst itxt ktxt. unfold dent_ast. cbn [fst snd].
+      destruct k as [kl|].
+      - (* key : value *)
+        apply andb_true_iff in Hshape as [Hkl Hkna].
+        exists false. split; [|trivial].
+        destruct (leaf_lead (sub lay 6) kl Hkl) as (k0 & ks & Ek & Hk0). destruct (lead_facts k0 Hk0) as (K1 & _).
+        eapply reaches_trans.
+        { apply (reaches_skip key w d _ F below tot Hw). rewrite <- !app_assoc, Ek. cbn [app nows]. rewrite K1. reflexivity. }
+        rewrite <- !app_assoc. cbn [app].
+        eapply reaches_trans; [apply reaches_step; apply step_leaf_dict_key; auto using w0_ws|].
+        eapply reaches_trans.
+        { apply reaches_step. apply step_colon; [exact HF | exact HM]. }
+        destruct (val_lead (sub lay 1) x Hvx) as (x0 & xs & Ex & Hx0).
+        eapply reaches_trans.
+        { apply (reaches_skip key (w0 lay 8) _ (print_val (sub lay 1) x ++ w0 lay 2 ++ after) _ below tot (w0_ws _ _)).
+          rewrite Ex. eapply nows_of. exact Hx0. }
+        set (F2 := set_meta (push_entry F (NVal (parts_of_leaf None kl))) (Some false)).
+        destruct x as [l|xitems|xents].
+        + cbn [val_ok] in Hvx. cbn [print_val ast_val].
+          eapply reaches_trans; [apply reaches_step; apply (step_leaf_dict_val key F2); auto using w0_ws|].
+          done_reach2.
+        + specialize (HPx eq_refl).
+          eapply reaches_trans.
+          { apply (HPx (sub lay 1) None [] F2 below tot key).
+            - apply op_dictval; [exact HF | reflexivity].
+            - cbn [sp_kind]. discriminate.
+            - cbn [length] in *. lia. }
+          unfold attach. replace (f_ty F2) with TDict by (symmetry; exact HF). cbn [stype_eqb fst snd app].
+          eapply reaches_trans.
+          { apply (reaches_skip key (w0 lay 2) _ after _ below tot (w0_ws _ _) Hnowsa). }
+          done_reach2.
+        + specialize (HPx eq_refl).
+          eapply reaches_trans.
+          { apply (HPx (sub lay 1) None [] F2 below tot key).
+            - apply op_dictval; [exact HF | reflexivity].
+            - cbn [sp_kind]. discriminate.
+            - cbn [length] in *. lia. }
+          unfold attach. replace (f_ty F2) with TDict by (symmetry; exact HF). cbn [stype_eqb fst snd app].
+          eapply reaches_trans.
+          { apply (reaches_skip key (w0 lay 2) _ after _ below tot (w0_ws _ _) Hnowsa). }
+          done_reach2.
+      - (* ** spread *)
+        exists true. split; [|trivial].
+        destruct x as [l|xitems|xents]; [| discriminate |].
+        + cbn [val_ok] in Hvx. apply andb_true_iff in Hshape as [Hspr Hna]. cbn [is_leaf print_val ast_val].
+          eapply reaches_trans.
+          { apply (reaches_skip key w d _ F below tot Hw). reflexivity. }
+          rewrite <- !app_assoc.
+          change ((42%N :: 42%N :: w0 lay 0) ++ print_leaf (sub lay 1) l ++ w0 lay 2 ++ after)
+            with ((42%N :: 42%N :: w0 lay 0) ++ print_leaf (sub lay 1) l ++ w0 lay 2 ++ after).
+          eapply reaches_trans; [apply reaches_step; apply step_leaf_dict_spread; auto using w0_ws|].
+          done_reach2.
+        + specialize (HPx eq_refl). cbn [is_leaf].
+          eapply reaches_trans.
+          { apply (reaches_skip key w d _ F below tot Hw). reflexivity. }
+          rewrite <- !app_assoc.
+          change ((42%N :: 42%N :: []) ++ print_val (sub lay 1) (SDict xents) ++ w0 lay 2 ++ after)
+            with ([42%N; 42%N] ++ print_val (sub lay 1) (SDict xents) ++ w0 lay 2 ++ after).
+          eapply reaches_trans.
+          { apply (HPx (sub lay 1) (Some SpStar2) [42%N; 42%N] F below tot key).
+            - apply op_dictspread; [exact HF | exact HM].
+            - cbn [sp_kind]. discriminate.
+            - cbn [length] in *. lia. }
+          unfold attach. rewrite HF. cbn [stype_eqb fst snd].
+          eapply reaches_trans.
+          { apply (reaches_skip key (w0 lay 2) _ after _ below tot (w0_ws _ _) Hnowsa). }
+          done_reach2. }
+    destruct Hitem as (m1 & Hitem & _).
+    (* 2. separator and the remaining entries *)
+    match goal with |- exists m, reaches _ (mkcur _ ?t) _ _ _ _ _ =>
+      replace t with (w ++ itxt ++ after) by (subst itxt after; norm_app; reflexivity) end.
+    set (F1 := fr F (dent_ast (k, x)) (Some m1)) in *.
+    assert (HF1 : f_ty (set_meta F1 (Some true)) = TDict) by exact HF.
+    assert (Hdep' : Forall (fun p => length (set_meta F1 (Some true) :: below) + vdepth (snd p) <= 101) rest) by exact Hdr.
+    subst after. unfold sep_text in *.
+    destruct last eqn:El.
+    + destruct rest as [|? ?]; [|discriminate]. cbn [print_dents app flat_map] in *.
+      destruct (opt lay 3).
+      * destruct (IH (sub lay 5) (set_meta F1 (Some true)) (44%N :: rev (w ++ itxt) ++ d) (w0 lay 4) r HF1 eq_refl HPr Hok Hdep' (w0_ws _ _))
+          as (m & Hm).
+        exists m. eapply reaches_trans; [exact Hitem|].
+        cbn [app]. eapply reaches_trans; [apply reaches_step; apply step_comma_dict; exact HF|].
+        eapply reaches_trans; [exact Hm|]. cbn [print_dents flat_map]. done_reach2.
+      * exists m1. eapply reaches_trans; [exact Hitem|]. done_reach2.
+    + destruct (IH (sub lay 5) (set_meta F1 (Some true)) (44%N :: rev (w ++ itxt) ++ d) (w0 lay 4) r HF1 eq_refl HPr Hok Hdep' (w0_ws _ _))
+        as (m & Hm).
+      exists m. eapply reaches_trans; [exact Hitem|].
+      cbn [app]. eapply reaches_trans; [apply reaches_step; apply step_comma_dict; exact HF|].
+      eapply reaches_trans; [exact Hm|]. cbn [flat_map]. done_reach2.
+Qed.
+
+(* --- any literal, any depth --- *)
+Lemma fold_max_in {A} (f : A -> nat) (l : list A) a : In a l -> f a <= fold_right (fun p m => Nat.max (f p) m) O l.
+Proof. induction l as [|b l IH]; cbn; [tauto|]. intros [->|H]; [lia|]. specialize (IH H). lia. Qed.
+Lemma fold_sum_in {A} (f : A -> nat) (l : list A) a : In a l -> f a <= fold_right (fun p m => f p + m) O l.
+Proof. induction l as [|b l IH]; cbn; [tauto|]. intros [->|H]; [lia|]. specialize (IH H). lia. Qed.
+
+Theorem Pv_all : forall n v, vsize v <= n -> val_ok v = true -> Pv v.
+Proof.
+  induction n as [|n IH]; intros v Hn Hok.
+  { destruct v; cbn in Hn; lia. }
+  destruct v as [l|items|ents]; intros lay sp pre T below tot key d r Hpos Hkind Hdepth.
+  - contradiction.
+  - (* list *)
+    cbn [sp_kind] in Hkind. cbn [vsize] in Hn. cbn [vdepth] in Hdepth. cbn [val_ok] in Hok.
+    rewrite print_val_list. cbn [app]. rewrite <- !app_assoc. cbn [app].
+    eapply reaches_trans.
+    { apply reaches_step. apply (step_open_list key T below tot sp pre d); [exact Hpos | exact Hkind | cbn [length] in *; lia]. }
+    set (F0 := mkframe TList sp [] None).
+    eapply reaches_trans.
+    { apply (list_items_run key (T :: below) tot items (sub lay 1) F0 _ (w0 lay 0) r eq_refl).
+      - apply Forall_forall. intros p Hp _. apply IH.
+        + pose proof (fold_sum_in (fun p => vsize (snd p)) items p Hp). cbn beta in *. lia.
+        + rewrite forallb_forall in Hok. specialize (Hok p Hp). apply andb_true_iff in Hok as [Hv _]. exact Hv.
+      - exact Hok.
+      - apply Forall_forall. intros p Hp.
+        pose proof (fold_max_in (fun p => vdepth (snd p)) items p Hp). cbn beta in *. cbn [length] in *. lia.
+      - apply w0_ws. }
+    eapply reaches_trans.
+    { apply reaches_step. apply step_close_list. reflexivity. }
+    subst_lets. apply reaches_refl2; [f_equal; norm_rev; reflexivity|]. reflexivity.
+  - (* dict *)
+    cbn [sp_kind] in Hkind. cbn [vsize] in Hn. cbn [vdepth] in Hdepth. cbn [val_ok] in Hok.
+    rewrite print_val_dict. cbn [app]. rewrite <- !app_assoc. cbn [app].
+    eapply reaches_trans.
+    { apply reaches_step. apply (step_open_dict key T below tot sp pre d); [exact Hpos | exact Hkind | cbn [length] in *; lia]. }
+    set (F0 := mkframe TDict sp [] (Some true)).
+    destruct (dict_items_run key (T :: below) tot ents (sub lay 1) F0 (123%N :: rev pre ++ d) (w0 lay 0) r eq_refl eq_refl)
+      as (m & Hm).
+    { apply Forall_forall. intros p Hp _. apply IH.
+      + pose proof (fold_sum_in (fun p => vsize (snd p)) ents p Hp). cbn beta in *. lia.
+      + rewrite forallb_forall in Hok. specialize (Hok p Hp). apply andb_true_iff in Hok as [Hv _]. exact Hv. }
+    { exact Hok. }
+    { apply Forall_forall. intros p Hp.
+      pose proof (fold_max_in (fun p => vdepth (snd p)) ents p Hp). cbn beta in *. cbn [length] in *. lia. }
+    { apply w0_ws. }
+    eapply reaches_trans; [exact Hm|].
+    eapply reaches_trans.
+    { apply reaches_step. apply (step_close_dict key _ T below tot _ r m); [reflexivity | reflexivity |].
+      subst F0. cbn [fr f_ents app]. apply validate_dents. }
+    subst_lets. apply reaches_refl2; [f_equal; norm_rev; reflexivity|]. reflexivity.
+Qed.
+
+Corollary Pv_ok v : val_ok v = true -> Pv v.
+Proof. apply (Pv_all (vsize v)). apply le_n. Qed.
+
+(* ================================================================================================ *)
+(* D. one top-level value                                                                            *)
+(* ================================================================================================ *)
+Definition top_ast (sp : option spread) (v : sval) : node :=
+  match v with
+  | SLeaf l => NStruct TSimple sp [NVal (parts_of_leaf sp l)] None
+  | _ => ast_val sp v
+  end.
+
+Lemma root_opos_plain key : opos root_frame None [] key.
+Proof. apply op_top. reflexivity. Qed.
+
+Lemma stack_loop_actual key c n c' root' :
+  (forall f, stack_loop (n + f) key c [root_frame] None = Ok (c', Some root')) ->
+  stack_loop (S (length (rest c))) key c [root_frame] None = Ok (c', Some root').
+Proof.
+  intro H. specialize (H 0).
+  pose proof (stack_loop_spec (S (length (rest c))) key c [root_frame] None) as Hs.
+  assert (Hi : st_inv [root_frame] None) by (cbn; apply so_root; reflexivity).
+  specialize (Hs Hi (fun _ => Nat.lt_succ_diag_r _)).
+  destruct (stack_loop (S (length (rest c))) key c [root_frame] None) as [x|k|] eqn:E; [| |contradiction].
+  - eapply (stack_loop_det _ _ _ _ _ _ _ _ E ltac:(discriminate) H ltac:(discriminate)).
+  - exfalso. pose proof (stack_loop_det _ _ _ _ _ _ _ _ E ltac:(discriminate) H ltac:(discriminate)). discriminate.
+Qed.
+
+(* a literal at the top level *)
+Lemma top_container key sp pre lay v d r :
+  opos root_frame sp pre key -> sp_kind sp v -> val_ok v = true -> vdepth v <= 100 ->
+  stack_loop (S (length (pre ++ print_val lay v ++ r))) key (mkcur d (pre ++ print_val lay v ++ r)) [root_frame] None
+  = Ok (mkcur (rev (pre ++ print_val lay v) ++ d) r, Some (push_entry root_frame (ast_val sp v))).
+Proof.
+  intros Hp Hk Hok Hd.
+  destruct (Pv_ok v Hok lay sp pre root_frame [] None key d r Hp Hk ltac:(cbn [length]; lia)) as [n Hn].
+  apply (stack_loop_actual key (mkcur d (pre ++ print_val lay v ++ r)) n).
+  intro f. rewrite Hn. unfold attach. cbn [root_frame f_ty stype_eqb fst snd]. destruct f; reflexivity.
+Qed.
+
+(* a leaf at the top level; it ends at the end of the text or at white space not followed by a filter character *)
+Lemma top_leaf key sp pre lay l d w r x0 s0 :
+  leaf_ok l = true -> (sp <> None -> spreadable l = true) ->
+  vstart (pre ++ print_leaf lay l ++ w ++ r) ->
+  pre ++ print_leaf lay l ++ w ++ r = x0 :: s0 -> is_ws x0 = false -> N.eqb x0 124 || N.eqb x0 58 = false ->
+  extract_spread TSimple None key (mkcur d (pre ++ print_leaf lay l ++ w ++ r))
+    = Ok (sp, mkcur (rev pre ++ d) (print_leaf lay l ++ w ++ r)) ->
+  forallb is_ws w = true -> end_ok CTop w r = true ->
+  stack_loop (S (length (pre ++ print_leaf lay l ++ w ++ r))) key (mkcur d (pre ++ print_leaf lay l ++ w ++ r)) [root_frame] None
+  = Ok (mkcur (rev (pre ++ print_leaf lay l ++ w) ++ d) r,
+        Some (push_entry (set_sp root_frame sp) (NVal (parts_of_leaf sp l)))).
+Proof.
+  intros Hl Hsp Hvs Htxt Hx0 Hf0 Hes Hw He.
+  cbn [stack_loop]. rewrite (step_value key d _ root_frame [] None Hvs).
+  cbn [root_frame f_ty f_meta f_sp].
+  rewrite (parts_loop_actual CTop TSimple None key sp l lay d pre w r None x0 s0 eq_refl Hl
+             ltac:(discriminate) ltac:(discriminate) Hsp Htxt Hx0 Hf0 Hes Hw He).
+  cbn [stype_eqb]. destruct (length (pre ++ print_leaf lay l ++ w ++ r)); reflexivity.
+Qed.
+
+Lemma unwrap_leaf sp l :
+  unwrap_total (push_entry (set_sp root_frame sp) (NVal (parts_of_leaf sp l))) = Ok (top_ast sp (SLeaf l)).
+Proof. reflexivity. Qed.
+
+Lemma unwrap_container sp v : is_leaf v = false ->
+  unwrap_total (push_entry root_frame (ast_val sp v)) = Ok (top_ast sp v).
+Proof. destruct v; [discriminate| |]; reflexivity. Qed.
+
+(* one iteration of the attribute loop *)
+Lemma attrs_iter f c attrs key c2 c3 root v :
+  at_end c = false -> parse_key (skip_ws c) = KKey key c2 ->
+  stack_loop (S (length (rest c2))) key c2 [root_frame] None = Ok (c3, Some root) ->
+  unwrap_total root = Ok v ->
+  attrs_loop (S f) c attrs = attrs_loop f c3 (attrs ++ [mkattr key v (N.of_nat (length (done (skip_ws c))))]).
+Proof. intros He Hk Hs Hu. cbn [attrs_loop]. rewrite He, Hk, Hs, Hu. reflexivity. Qed.
+
+Lemma attrs_loop_skip f d w r attrs : forallb is_ws w = true -> nows r = true ->
+  attrs_loop (S f) (mkcur d (w ++ r)) attrs = attrs_loop (S f) (mkcur (rev w ++ d) r) attrs.
+Proof.
+  intros Hw Hr. destruct w as [|y w]; [reflexivity|].
+  cbn [attrs_loop]. rewrite (skip_ws_run (y :: w) d r Hw Hr). rewrite (skip_ws_none _ r Hr).
+  destruct r as [|x r].
+  - unfold at_end. cbn [rest app]. unfold parse_key.
+    replace (is_next VALUE_START (mkcur (rev (y :: w) ++ d) [])) with false by reflexivity.
+    unfold take_until. cbn [done rest take_until_go]. unfold at_end. cbn [rest]. reflexivity.
+  - unfold at_end. cbn [rest app]. reflexivity.
+Qed.
+
+Lemma attrs_loop_end f d w attrs : forallb is_ws w = true ->
+  attrs_loop (S f) (mkcur d w) attrs = Ok (rev (rev w ++ d), attrs).
+Proof.
+  intro Hw. rewrite <- (app_nil_r w) at 1. rewrite (attrs_loop_skip f d w [] attrs Hw eq_refl). reflexivity.
+Qed.
+
+Lemma attrs_word d w1 txt rst key c2 c3 root node :
+  forallb is_ws w1 = true -> nows (txt ++ rst) = true -> txt ++ rst <> [] ->
+  parse_key (mkcur (rev w1 ++ d) (txt ++ rst)) = KKey key c2 ->
+  stack_loop (S (length (rest c2))) key c2 [root_frame] None = Ok (c3, Some root) ->
+  unwrap_total root = Ok node ->
+  forall f A, attrs_loop (S f) (mkcur d (w1 ++ txt ++ rst)) A
+              = attrs_loop f c3 (A ++ [mkattr key node (N.of_nat (length (rev w1 ++ d)))]).
+Proof.
+  intros Hw Hn Hne Hk Hs Hu f A.
+  assert (Hsk : skip_ws (mkcur d (w1 ++ txt ++ rst)) = mkcur (rev w1 ++ d) (txt ++ rst)) by (apply skip_ws_run; assumption).
+  rewrite (attrs_iter f (mkcur d (w1 ++ txt ++ rst)) A key c2 c3 root node).
+  - rewrite Hsk. reflexivity.
+  - unfold at_end. cbn [rest]. destruct (w1 ++ txt ++ rst) eqn:E; [|reflexivity].
+    apply app_eq_nil in E as [_ E]. congruence.
+  - rewrite Hsk. exact Hk.
+  - exact Hs.
+  - exact Hu.
+Qed.
+
+(* ================================================================================================ *)
+(* E. one argument                                                                                   *)
+(* ================================================================================================ *)
+Lemma parse_key_pos' d x s :
+  is_next VALUE_START (mkcur d (x :: s)) = true \/ no_eq_word (x :: s) ->
+  parse_key (mkcur d (x :: s)) = KKey None (mkcur d (x :: s)).
+Proof. intros [H|H]; [unfold parse_key; rewrite H; reflexivity | apply parse_key_pos; exact H]. Qed.
+
+Lemma end_ok_top_parts w r : end_ok CTop w r = true ->
+  nows r = true /\ match r with [] => true | y :: _ => negb (N.eqb y 124 || N.eqb y 58) end = true
+  /\ (w = [] -> r = []).
+Proof.
+  cbn [end_ok]. intro H. apply andb_true_iff in H as [H H3]. apply andb_true_iff in H as [H1 H2].
+  repeat split; auto. intros ->. destruct r; [reflexivity | discriminate].
+Qed.
+
+Lemma filters_head : forall fs lay w r, forallb is_ws w = true -> end_ok CTop w r = true ->
+  match print_filters lay fs ++ w ++ r with [] => true | y :: _ => stopper y end = true.
+Proof.
+  intros fs lay w r Hw He. destruct fs as [|f fs].
+  - cbn [print_filters app]. destruct w as [|y w].
+    + destruct (end_ok_top_parts _ _ He) as (_ & _ & Hr). rewrite (Hr eq_refl). reflexivity.
+    + cbn [forallb] in Hw. apply andb_true_iff in Hw as [Hy _]. cbn [app]. unfold stopper. rewrite Hy. reflexivity.
+  - cbn [print_filters]. pose proof (w0_ws lay 0) as H0. destruct (w0 lay 0) as [|y w'].
+    + reflexivity.
+    + cbn [forallb] in H0. apply andb_true_iff in H0 as [Hy _]. cbn [app]. unfold stopper. rewrite Hy. reflexivity.
+Qed.
+
+Lemma var_char_not61 t : forallb var_char t = true -> forallb (fun x => negb (N.eqb x 61)) t = true.
+Proof.
+  intro H. rewrite forallb_forall in *. intros x Hx. specialize (H x Hx). unfold var_char in H.
+  apply negb_true_iff in H. apply negb_true_iff. eapply (proj1 (notin_eqb x _ 61%N H _)).
+  Unshelve. cbv. tauto.
+Qed.
+
+Lemma leaf_word lay l w r d : leaf_ok l = true -> forallb is_ws w = true -> end_ok CTop w r = true ->
+  is_next VALUE_START (mkcur d (print_leaf lay l ++ w ++ r)) = true \/ no_eq_word (print_leaf lay l ++ w ++ r).
+Proof.
+  intros Hl Hw He. unfold leaf_ok in Hl. apply andb_true_iff in Hl as [Hh _]. unfold print_leaf.
+  destruct (lf_head l) as [t|q b|q b]; cbn [atom_ok print_atom] in *.
+  - right. exists t, (print_filters (sub lay 1) (lf_filters l) ++ w ++ r). split; [rewrite <- app_assoc; reflexivity|].
+    destruct (tok_ok_parts t Hh) as (x & t' & -> & _ & Hv). split; [apply var_char_not61; exact Hv|].
+    apply filters_head; assumption.
+  - left. apply andb_true_iff in Hh as [Hq _]. destruct (quote_cases q Hq) as [->| ->]; reflexivity.
+  - apply andb_true_iff in Hh as [Hq _]. pose proof (w0_ws (sub lay 0) 0) as H0.
+    destruct (w0 (sub lay 0) 0) as [|y w'] eqn:E0.
+    + left. unfold quoted. cbn [app]. destruct (quote_cases q Hq) as [->| ->]; reflexivity.
+    + right. exists [95; 40]%N. eexists. split; [cbn [app]; rewrite <- !app_assoc; cbn [app]; reflexivity|].
+      split; [reflexivity|]. cbn [forallb] in H0. apply andb_true_iff in H0 as [Hy _]. unfold stopper. rewrite Hy. reflexivity.
+Qed.
+
+(* a value at the top level, after an optional `...`: the container-stack loop returns its AST; the attribute
+   loop continues right after the value *)
+Lemma top_value key sp pre lay v d w r :
+  opos root_frame sp pre key -> val_ok v = true -> vdepth v <= 100 ->
+  (sp <> None -> match v with SLeaf l => spreadable l = true | _ => True end) ->
+  forallb is_ws w = true -> end_ok CTop w r = true ->
+  exists c3 root,
+    stack_loop (S (length (pre ++ print_val lay v ++ w ++ r))) key (mkcur d (pre ++ print_val lay v ++ w ++ r)) [root_frame] None
+      = Ok (c3, Some root)
+    /\ unwrap_total root = Ok (top_ast sp v)
+    /\ forall f A, attrs_loop (S f) c3 A = attrs_loop (S f) (mkcur (rev (pre ++ print_val lay v) ++ d) (w ++ r)) A.
+Proof.
+  intros Hp Hok Hd Hspr Hw He.
+  destruct (end_ok_top_parts _ _ He) as (Hnr & _ & _).
+  assert (Hsp : (sp = None /\ pre = []) \/ (sp = Some SpDots /\ pre = [46; 46; 46]%N /\ key = None)).
+  { inversion Hp; subst; try discriminate; auto. }
+  destruct v as [l|items|ents].
+  - (* leaf *)
+    cbn [val_ok print_val] in *. destruct (leaf_lead lay l Hok) as (x & s & E & Hx).
+    destruct (lead_facts x Hx) as (F1 & F2 & F3 & F4 & F5 & F6).
+    eexists _, _. split; [|split; [apply unwrap_leaf|]].
+    + destruct Hsp as [[-> ->]|(-> & -> & ->)].
+      * apply (top_leaf key None [] lay l d w r x (s ++ w ++ r)); auto; try congruence.
+        -- cbn [app]. rewrite E. cbn [app]. apply vstart_lead. exact F4.
+        -- cbn [app]. rewrite E. reflexivity.
+        -- cbn [app]. rewrite E. cbn [app rev]. apply es_none. exact F3.
+      * apply (top_leaf None (Some SpDots) [46; 46; 46]%N lay l d w r 46%N (46%N :: 46%N :: print_leaf lay l ++ w ++ r)); auto.
+        -- rewrite E. cbn [app]. apply vstart_dots. exact F6.
+        -- rewrite E. cbn [app rev]. apply es_dots. exact F1.
+    + intros f A. rewrite (attrs_loop_skip f (rev (pre ++ print_leaf lay l) ++ d) w r A Hw Hnr).
+      f_equal. f_equal. norm_rev. reflexivity.
+  - eexists _, _. split; [|split; [apply unwrap_container; reflexivity|]].
+    + apply (top_container key sp pre lay (SList items) d (w ++ r)); auto.
+      cbn [sp_kind]. destruct Hsp as [[-> _]|(-> & _)]; discriminate.
+    + reflexivity.
+  - eexists _, _. split; [|split; [apply unwrap_container; reflexivity|]].
+    + apply (top_container key sp pre lay (SDict ents) d (w ++ r)); auto.
+      cbn [sp_kind]. destruct Hsp as [[-> _]|(-> & _)]; discriminate.
+    + reflexivity.
+Qed.
+
+Definition tok_leaf (t : str) : leaf := mkleaf (AVar t) [].
+Definition item_key (it : item) : option str := match it with IKw k _ => Some k | _ => None end.
+Definition item_node (it : item) : node :=
+  match it with
+  | IPos v => top_ast None v
+  | IKw _ v => top_ast None v
+  | ISpread v => top_ast (Some SpDots) v
+  | IFlag f => top_ast None (SLeaf (tok_leaf f))
+  end.
+
+Lemma print_tok_leaf lay t : print_leaf lay (tok_leaf t) = t.
+Proof. unfold print_leaf, tok_leaf. cbn. apply app_nil_r. Qed.
+Lemma tok_leaf_ok t : tok_ok t = true -> leaf_ok (tok_leaf t) = true.
+Proof. intro H. unfold leaf_ok, tok_leaf. cbn. rewrite H. reflexivity. Qed.
+
+(* `pre0` = what parse_key consumes (`key=`), `pre` = the spread operator *)
+Lemma word_run key sp pre0 pre lay v d w1 w r :
+  parse_key (mkcur (rev w1 ++ d) ((pre0 ++ pre ++ print_val lay v) ++ w ++ r))
+    = KKey key (mkcur (rev pre0 ++ rev w1 ++ d) (pre ++ print_val lay v ++ w ++ r)) ->
+  nows ((pre0 ++ pre ++ print_val lay v) ++ w ++ r) = true ->
+  opos root_frame sp pre key -> val_ok v = true -> vdepth v <= 100 ->
+  (sp <> None -> match v with SLeaf l => spreadable l = true | _ => True end) ->
+  forallb is_ws w1 = true -> forallb is_ws w = true -> end_ok CTop w r = true ->
+  exists st, forall f A,
+    attrs_loop (S (S f)) (mkcur d (w1 ++ (pre0 ++ pre ++ print_val lay v) ++ w ++ r)) A
+    = attrs_loop (S f) (mkcur (rev (w1 ++ pre0 ++ pre ++ print_val lay v) ++ d) (w ++ r))
+                 (A ++ [mkattr key (top_ast sp v) st]).
+Proof.
+  intros Hk Hn Hp Hok Hd Hspr Hw1 Hw He.
+  destruct (top_value key sp pre lay v (rev pre0 ++ rev w1 ++ d) w r Hp Hok Hd Hspr Hw He) as (c3 & root & Hs & Hu & Hc).
+  eexists. intros f A.
+  rewrite (attrs_word d w1 (pre0 ++ pre ++ print_val lay v) (w ++ r) key
+             (mkcur (rev pre0 ++ rev w1 ++ d) (pre ++ print_val lay v ++ w ++ r)) c3 root (top_ast sp v) Hw1 Hn).
+  - rewrite Hc. f_equal. f_equal. norm_rev. reflexivity.
+  - destruct (val_lead lay v Hok) as (x & s & E & _). rewrite E. destruct pre0, pre; discriminate.
+  - exact Hk.
+  - exact Hs.
+  - exact Hu.
+Qed.
+
+Lemma val_word lay v w r d : val_ok v = true -> forallb is_ws w = true -> end_ok CTop w r = true ->
+  is_next VALUE_START (mkcur d (print_val lay v ++ w ++ r)) = true \/ no_eq_word (print_val lay v ++ w ++ r).
+Proof.
+  intros Hok Hw He. destruct v as [l| |].
+  - apply leaf_word; assumption.
+  - left. reflexivity.
+  - left. reflexivity.
+Qed.
+
+Lemma key_first_nows k s : key_ok k = true -> nows (k ++ s) = true.
+Proof.
+  intro H. destruct (key_ok_parts k H) as (x & k' & -> & _ & Hx & _). cbn [app nows]. apply negb_true_iff.
+  unfold key_char in Hx. apply negb_true_iff in Hx. unfold is_ws. eapply existsb_incl; [exact Hx | reflexivity].
+Qed.
+
+Lemma item_run allowed lay it d w1 w r :
+  forallb tok_ok allowed = true -> item_ok allowed it = true ->
+  forallb is_ws w1 = true -> forallb is_ws w = true -> end_ok CTop w r = true ->
+  exists st, forall f A,
+    attrs_loop (S (S f)) (mkcur d (w1 ++ print_item lay it ++ w ++ r)) A
+    = attrs_loop (S f) (mkcur (rev (w1 ++ print_item lay it) ++ d) (w ++ r))
+                 (A ++ [mkattr (item_key it) (item_node it) st]).
+Proof.
+  intros Hal Hok Hw1 Hw He.
+  assert (Hpos : forall v, val_ok v = true -> vdepth v <= 100 ->
+            exists st, forall f A,
+              attrs_loop (S (S f)) (mkcur d (w1 ++ print_val lay v ++ w ++ r)) A
+              = attrs_loop (S f) (mkcur (rev (w1 ++ print_val lay v) ++ d) (w ++ r)) (A ++ [mkattr None (top_ast None v) st])).
+  { intros v Hv Hd.
+    destruct (val_lead lay v Hv) as (x & s & E & Hx).
+    assert (Hk : parse_key (mkcur (rev w1 ++ d) (([] ++ [] ++ print_val lay v) ++ w ++ r))
+                 = KKey None (mkcur (rev [] ++ rev w1 ++ d) ([] ++ print_val lay v ++ w ++ r))).
+    { cbn [app rev]. rewrite E. cbn [app]. apply parse_key_pos'.
+      change (x :: s ++ w ++ r) with ((x :: s) ++ w ++ r). rewrite <- E. apply val_word; assumption. }
+    assert (Hn : nows (([] ++ [] ++ print_val lay v) ++ w ++ r) = true).
+    { cbn [app]. rewrite E. cbn [app]. eapply nows_of. exact Hx. }
+    destruct (word_run None None [] [] lay v d w1 w r Hk Hn (root_opos_plain None) Hv Hd ltac:(congruence) Hw1 Hw He)
+      as (st & Hst).
+    exists st. exact Hst. }
+  destruct it as [v|k v|v|fl]; cbn [item_ok print_item item_key item_node] in *.
+  - apply andb_true_iff in Hok as [Hok _]. apply andb_true_iff in Hok as [Hok _]. apply andb_true_iff in Hok as [Hv Hd].
+    apply Nat.leb_le in Hd. apply Hpos; assumption.
+  - apply andb_true_iff in Hok as [Hok _]. apply andb_true_iff in Hok as [Hok Hd]. apply andb_true_iff in Hok as [Hk Hv].
+    apply Nat.leb_le in Hd.
+    assert (Hpk : parse_key (mkcur (rev w1 ++ d) (((k ++ [61%N]) ++ [] ++ print_val lay v) ++ w ++ r))
+                 = KKey (Some k) (mkcur (rev (k ++ [61%N]) ++ rev w1 ++ d) ([] ++ print_val lay v ++ w ++ r))).
+    { cbn [app]. rewrite <- !app_assoc. cbn [app]. rewrite (parse_key_kw k _ _ Hk). f_equal. f_equal. norm_rev. reflexivity. }
+    assert (Hn : nows (((k ++ [61%N]) ++ [] ++ print_val lay v) ++ w ++ r) = true).
+    { rewrite <- !app_assoc. apply key_first_nows. exact Hk. }
+    destruct (word_run (Some k) None (k ++ [61%N]) [] lay v d w1 w r Hpk Hn (root_opos_plain (Some k)) Hv Hd
+                ltac:(congruence) Hw1 Hw He) as (st & Hst).
+    exists st. intros f A. specialize (Hst f A). cbn [app] in Hst. rewrite <- !app_assoc in Hst. cbn [app] in Hst.
+    rewrite <- !app_assoc. cbn [app]. exact Hst.
+  - apply andb_true_iff in Hok as [Hok Hspr]. apply andb_true_iff in Hok as [Hv Hd]. apply Nat.leb_le in Hd.
+    assert (Hpk : parse_key (mkcur (rev w1 ++ d) (([] ++ [46; 46; 46]%N ++ print_val lay v) ++ w ++ r))
+                 = KKey None (mkcur (rev [] ++ rev w1 ++ d) ([46; 46; 46]%N ++ print_val lay v ++ w ++ r))).
+    { cbn [app rev]. apply parse_key_pos'. left. reflexivity. }
+    assert (Hn : nows (([] ++ [46; 46; 46]%N ++ print_val lay v) ++ w ++ r) = true) by reflexivity.
+    assert (Hs' : Some SpDots <> None -> match v with SLeaf l => spreadable l = true | _ => True end).
+    { intros _. destruct v; auto. }
+    destruct (word_run None (Some SpDots) [] [46; 46; 46]%N lay v d w1 w r Hpk Hn (op_top_dots root_frame eq_refl) Hv Hd
+                Hs' Hw1 Hw He) as (st & Hst).
+    exists st. exact Hst.
+  - assert (Hf : tok_ok fl = true).
+    { unfold str_in in Hok. apply existsb_exists in Hok as [a [Ha E]]. apply str_eqb_eq in E. subst a.
+      rewrite forallb_forall in Hal. apply Hal. exact Ha. }
+    destruct (Hpos (SLeaf (tok_leaf fl)) (tok_leaf_ok fl Hf) ltac:(cbn; lia)) as (st & Hst).
+    exists st. intros f A. specialize (Hst f A). cbn [print_val] in Hst. rewrite print_tok_leaf in Hst. exact Hst.
 Qed.
